@@ -46,6 +46,21 @@ def drain(world):
     return w
 
 
+def fail_first(world):
+    """The first job that can still fail does (started if necessary): its target is then a failed target for status and run."""
+    w = world.copy()
+    sim = simsched.Sim(w.sim)
+    for a, jid in sim.enabled():
+        if a == "start":
+            sim.step("start", jid)
+            break
+    for a, jid in sim.enabled():
+        if a == "finish_fail":
+            sim.step("finish_fail", jid)
+            break
+    return w
+
+
 def actions(world):
     names = world.wf.names()
     mid = names[1] if len(names) > 1 else names[0]
@@ -53,7 +68,7 @@ def actions(world):
             ("gwf", ["clean", "--all", "-f"]), ("gwf", ["clean", names[0]]), ("gwf", ["clean", "-f"]),
             ("editspec", names[0]), ("editspec", mid),
             ("gwf", ["config", "set", "use_spec_hashes", "false" if enabled(world) else "true"]),
-            ("reject", 0), ("reject", 1), ("drain",)]
+            ("reject", 0), ("reject", 1), ("drain",), ("failone",)]
     if "B" in names:
         acts.append(("rename", "B", "B2"))
     if len(names) > 2:
@@ -111,6 +126,8 @@ def do(world, action):
         return w2, info
     if action[0] == "drain":
         return drain(world), info
+    if action[0] == "failone":
+        return fail_first(world), info
     if action[0] == "rename":
         w2 = world.copy()
         wf = copy.deepcopy(w2.wf)
@@ -179,6 +196,45 @@ def expand(acc, batch, last=False, meta=None):
             acc.out.append((e2.world_key(w2), w2, trace + [list(a)]))
 
 
+# ------------------------------------------------------------------------------------------- every edit is an edit
+# Spec texts that differ only in white space, blank lines, line endings or case: each is a different script (indentation of a
+# here-document terminator, a trailing backslash-newline, ... change what runs).
+SPEC_VARIANTS = ["echo A\n", "echo A", "echo A\n\n", "\necho A\n", "  echo A\n", "\techo A\n", "echo  A\n", "echo A \n", "echo A\r\n", "echo a\n",
+                 "echo A\necho A\n", "cat <<E\n x\nE\n", "cat <<E\n x\n E\nE\n", "  cat <<E\n   x\n  E\n", ""]
+
+
+def distinct_batch(acc, batch):
+    """Record the hash of spec i (real `gwf touch`), edit the workflow file to spec j, look at `gwf status` and `gwf run`.
+    'Differs' is judged on the spec text as gwf itself holds it (`gwf info`), never through a hash function."""
+    for i, j in batch:
+        def world(spec):
+            wf = W.Workflow([W.T("A", ["src"], ["a"], spec=spec), W.T("B", ["a"], ["b"], spec="echo B\n"), W.T("U", ["src"], ["u"], spec="echo U\n")])
+            return W.World(wf, files={"src": (1, "s"), "a": (2, "a"), "b": (3, "b"), "u": (2, "u")}, conf={"backend": "slurm", "use_spec_hashes": True})
+
+        w0 = world(SPEC_VARIANTS[i])
+        with W.Session(w0) as s:
+            r0 = s.gwf(["touch"])
+            held_i = json.loads(s.gwf(["info", "A"]).stdout)["A"]["spec"]
+            w1 = s.snapshot()
+        w1.wf = world(SPEC_VARIANTS[j]).wf
+        with W.Session(w1) as s:
+            held_j = json.loads(s.gwf(["info", "A"]).stdout)["A"]["spec"]
+            rs = s.gwf(["status"])
+            rows = W.parse_status(rs.stdout)
+            rr = s.gwf(["run"])
+            subs = sorted(e["name"] for e in s.sim.journal_submits())
+        acc.extra["invocations"] += 6
+        differs = held_i != held_j
+        exp_rows = {"A": "shouldrun", "B": "shouldrun", "U": "completed"} if differs else {"A": "completed", "B": "completed", "U": "completed"}
+        exp_subs = ["A", "B"] if differs else []
+        case = dict(kind="distinct", i=i, j=j, recorded=SPEC_VARIANTS[i], edited=SPEC_VARIANTS[j])
+        acc.case(key=json.dumps(case), outcome=f"differs={differs}", sample=case, nontrivial=True)
+        if r0.exit_code != 0 or rs.exit_code != 0 or rr.exit_code != 0 or rows != exp_rows or subs != exp_subs:
+            acc.violation(sig=dict(kind="distinct", what="edit not seen" if differs else "unedited spec seen as edited"), case=case, expected=dict(rows=exp_rows, submitted=exp_subs),
+                          observed=dict(rows=rows, submitted=subs, exits=[r0.exit_code, rs.exit_code, rr.exit_code]),
+                          msg=f"hash recorded for spec {SPEC_VARIANTS[i]!r}, workflow edited to {SPEC_VARIANTS[j]!r} ({'different' if differs else 'same'} text): status {rows}, run submitted {subs}; expected {exp_rows}, {exp_subs}")
+
+
 def inits(wfname):
     a = CW.init_world(wfname, "slurm", hashing=True, fresh=False)   # enabled, no hash file yet
     b = CW.init_world(wfname, "slurm", hashing=True, fresh=True)    # enabled, records for all, everything complete
@@ -195,9 +251,11 @@ def run(ctx):
         meta = dict(wf=wfname)
         e2.bfs(ctx, me, "expand", inits(wfname), depth, chunk=2, meta=meta)
         done.append(dict(meta, depth=depth))
+    nv = len(SPEC_VARIANTS)
+    ctx.pmap(me, "distinct_batch", [(i, j) for i in range(nv) for j in range(nv)], chunk=8)
     ctx.traces_validated = ctx.acc.extra["transitions"]
-    ctx.rule = "state = canonical world incl. hash records and configuration; every transition of the 17-action alphabet is executed with the real CLI and checked"
-    ctx.bound = dict(configs=done, alphabet=17)
+    ctx.rule = "state = canonical world incl. hash records and configuration; every transition of the 18-action alphabet is executed with the real CLI and checked"
+    ctx.bound = dict(configs=done, alphabet=18, spec_variants=nv, spec_pairs=nv * nv)
     ctx.assumptions = ["Slurm simulator; a rejected submission = sbatch exiting non-zero without creating a job"]
 
 
@@ -205,6 +263,9 @@ def replay(case):
     from mc.runner import Acc
 
     acc = Acc()
+    if case.get("kind") == "distinct":
+        distinct_batch(acc, [(case["i"], case["j"])])
+        return acc.violations
     meta = case["meta"]
     # the initial world is identified by replaying from each of the three initial worlds; traces are short
     for w in inits(meta["wf"]):
